@@ -1,0 +1,1 @@
+//! Verification hook: public wrapper of frame encoding (frame.rs) and the connection preface.
